@@ -3,183 +3,45 @@
 package c01
 
 import (
-	"encoding/json"
-	"fmt"
 	"strconv"
 	"testing"
 
-	"github.com/gogpu/naga"
-	"github.com/gogpu/naga/spirv"
 	"pgregory.net/rapid"
 
 	"verif/internal/ev"
-	"verif/internal/spv"
-	"verif/internal/wgen"
-	"verif/internal/wref"
+	"verif/internal/execcheck"
 	"verif/internal/xrun"
 )
 
 func TestMain(m *testing.M) { ev.Main(m, "C01") }
 
-var judges = map[string]ev.Judge{"spirv-exec": judgeExec}
-
-func TestKnown(t *testing.T)  { ev.RunKnown(t, "C01", judges) }
-func TestReplay(t *testing.T) { ev.RunReplay(t, judges) }
-
-// compileSPIRV runs the pipeline under test with the options recorded in the case.
-func compileSPIRV(c *xrun.Case) ([]byte, string, error) {
-	ver := spirv.Version1_3
-	if v, ok := c.Opts["version"]; ok {
-		maj, _ := strconv.Atoi(v[:1])
-		mnr, _ := strconv.Atoi(v[2:])
-		ver = spirv.Version{Major: uint8(maj), Minor: uint8(mnr)}
-	}
-	if c.Opts["api"] == "compile" {
-		b, err := naga.CompileWithOptions(c.WGSL, naga.CompileOptions{SPIRVVersion: ver, Debug: c.Opts["debug"] == "1", Validate: true})
-		return b, "compile", err
-	}
-	ast, err := naga.Parse(c.WGSL)
-	if err != nil {
-		return nil, "parse", err
-	}
-	m, err := naga.LowerWithSource(ast, c.WGSL)
-	if err != nil {
-		return nil, "lower", err
-	}
-	b, err := naga.GenerateSPIRV(m, spirv.Options{Version: ver, Debug: c.Opts["debug"] == "1", ForceLoopBounding: c.Opts["loopbound"] == "1"})
-	return b, "spirv", err
-}
-
-// Verdict of one judged case.
-type verdict struct {
-	ok       bool
-	msg      string
-	rejected string // naga refused the program (C08's business)
-	unsup    string // interpreter does not model something
-}
-
-func judge(c *xrun.Case) verdict {
-	bin, stage, err := compileSPIRV(c)
-	if err != nil {
-		return verdict{ok: true, rejected: stage + ": " + err.Error()}
-	}
-	mod, err := spv.Parse(bin)
-	if err != nil {
-		return verdict{ok: false, msg: "emitted SPIR-V does not parse: " + err.Error()}
-	}
-	bufs := map[spv.Key][]byte{}
-	init := c.InitialBuffers()
-	for k, b := range init {
-		bufs[spv.Key{Set: uint32(k[0]), Binding: uint32(k[1])}] = b
-	}
-	res, err := spv.Run(mod, spv.RunConfig{Entry: c.Entry, Buffers: bufs, NumWorkgroups: c.NumWG, StepLimit: c.StepBudget()})
-	if err != nil {
-		if err == spv.ErrStepLimit {
-			return verdict{ok: false, msg: fmt.Sprintf("emitted SPIR-V does not terminate within %d steps (reference needed %d)", c.StepBudget(), c.RefSteps)}
-		}
-		return verdict{ok: true, unsup: "interpreter error: " + err.Error()}
-	}
-	if res.Trap != "" {
-		if len(res.Trap) >= 12 && res.Trap[:12] == "unsupported:" {
-			return verdict{ok: true, unsup: res.Trap}
-		}
-		return verdict{ok: false, msg: "executing the emitted SPIR-V traps: " + res.Trap}
-	}
-	if len(res.Poison) > 0 {
-		return verdict{ok: false, msg: "the emitted SPIR-V uses a value the SPIR-V specification leaves undefined: " + res.Poison[0]}
-	}
-	got := map[[2]int][]byte{}
-	for k, b := range bufs {
-		got[[2]int{int(k.Set), int(k.Binding)}] = b
-	}
-	ok, msg := c.Compare(got)
-	return verdict{ok: ok, msg: msg}
-}
-
-func judgeExec(raw json.RawMessage) (bool, string) {
-	var c xrun.Case
-	if err := json.Unmarshal(raw, &c); err != nil {
-		return false, "bad case: " + err.Error()
-	}
-	v := judge(&c)
-	if v.rejected != "" {
-		return true, "rejected: " + v.rejected
-	}
-	return v.ok, v.msg
-}
-
 var versions = []string{"1.0", "1.1", "1.2", "1.3", "1.4", "1.5", "1.6"}
 
-func TestPropExec(t *testing.T) {
-	ev.Rule("exec-profile WGSL compute programs (own AST, valid by construction: scalars/vectors/matrices/arrays/structs/pointers, helpers, let/var/const, if/switch/loop/for/while/break/continue/return, compound assignment, swizzles, builtins, atomics, workgroup memory + barriers) x boundary-biased buffer contents x spirv options {version 1.0-1.6, debug, loop bounding, one-call Compile API}; oracle: independent WGSL reference evaluator vs independent SPIR-V interpreter on the emitted binary, every non-padding output byte compared (bit-exact; tolerance only for float results WGSL does not determine bit-exactly), no poison, no trap, termination within a step budget derived from the reference; non-trivial = reference run loaded from an input buffer, stored to an output buffer and executed >= 5 dynamic operations of >= 3 classes; distinct = hash(WGSL, inputs, options)")
-	ev.Assume("verif/internal/wref implements WGSL evaluation; verif/internal/spv implements SPIR-V execution; both written from the specifications, sharing no code with naga")
-	ev.Assume("textures, derivatives, subgroup and ray-query operations are outside the executors")
-	rapid.Check(t, func(t *rapid.T) {
-		f := wgen.DefaultFeatures()
-		f.ConstOK = wref.ConstOK
-		f.Off = func(tag string) bool { return ev.Excluded(tag) || ev.Excluded("spv."+tag) }
-		gc := wgen.GenExec(t, f)
-		c, res, discard, err := xrun.Build(gc, nil, knownDiscards)
-		if err != nil {
-			ev.Inconclusive("reference evaluator failed on a generated program: " + err.Error())
-			t.Fatalf("harness: %v\n%s", err, gc.Src)
-		}
-		if discard != "" {
-			ev.Class("discard:" + discard)
-			ev.Eval(ev.HashS(gc.Src), false)
-			return
-		}
-		c.Opts = map[string]string{
+var cfg = &execcheck.Config{
+	Check:  "spirv-exec",
+	Prefix: "spv.",
+	Run:    xrun.RunSPIRV,
+	DrawOpts: func(t *rapid.T) map[string]string {
+		o := map[string]string{
 			"version":   versions[rapid.IntRange(0, len(versions)-1).Draw(t, "version")],
 			"debug":     strconv.Itoa(rapid.IntRange(0, 1).Draw(t, "debug")),
 			"loopbound": strconv.Itoa(rapid.IntRange(0, 1).Draw(t, "loopbound")),
 		}
 		if rapid.IntRange(0, 5).Draw(t, "api") == 0 {
-			c.Opts["api"] = "compile"
+			o["api"] = "compile"
 		}
-		v := judge(c)
-		raw, _ := json.Marshal(c.Opts)
-		nt := xrun.NonTrivial(res) && v.rejected == "" && v.unsup == ""
-		ev.Eval(ev.HashS(c.WGSL, fmt.Sprint(c.Buffers), string(raw)), nt)
-		for _, k := range gc.Classes {
-			ev.Class("gen:" + k)
-		}
-		ev.Class("opt:version=" + c.Opts["version"])
-		if v.rejected != "" {
-			ev.Class("rejected-by-naga")
-			return
-		}
-		if v.unsup != "" {
-			ev.Class("unsupported")
-			if ev.WantSample("unsupported") {
-				ev.Sample("unsupported", map[string]string{"why": v.unsup, "wgsl": c.WGSL})
-			}
-			return
-		}
-		if nt && ev.WantSample("exec") {
-			ev.Sample("exec", c)
-		}
-		if !v.ok {
-			ev.Fail("spirv-exec", c, v.msg)
-			t.Fatalf("%s\n%s", v.msg, c.WGSL)
-		}
-	})
+		return o
+	},
 }
 
-// knownDiscards keeps generated search away from executions that hit the root
-// cause of an open known finding (counted as discards).
-func knownDiscards(e *wref.Events) string {
-	if (e.F2IRange > 0 || e.F2INaN > 0) && ev.Excluded("spv.f2i.out-of-range") {
-		return "known:f2i-out-of-range"
-	}
-	if e.ClampInv > 0 && ev.Excluded("spv.clamp.inverted") {
-		return "known:int-clamp-inverted"
-	}
-	if e.ShiftWide > 0 && ev.Excluded("spv.shift.wide") {
-		return "known:shift-amount>=32"
-	}
-	if e.BitsClamp > 0 && ev.Excluded("spv.bits.out-of-range") {
-		return "known:bits-out-of-range"
-	}
-	return ""
+var judges = map[string]ev.Judge{"spirv-exec": cfg.Judge}
+
+func TestKnown(t *testing.T)  { ev.RunKnown(t, "C01", judges) }
+func TestReplay(t *testing.T) { ev.RunReplay(t, judges) }
+
+func TestPropExec(t *testing.T) {
+	ev.Rule("exec-profile WGSL compute programs (own AST, valid by construction: scalars/vectors/matrices/arrays/structs/pointers, helpers, let/var/const, if/switch/loop/for/while/break/continue/return, compound assignment, swizzles, builtins, atomics, workgroup memory + barriers) x boundary-biased buffer contents x spirv options {version 1.0-1.6, debug, loop bounding, one-call Compile API}; oracle: independent WGSL reference evaluator vs independent SPIR-V interpreter on the emitted binary, every non-padding output byte compared (bit-exact; tolerance only for float results WGSL does not determine bit-exactly), no poison, no trap, termination within a step budget derived from the reference; non-trivial = reference run loaded from an input buffer, stored to an output buffer and executed >= 5 dynamic operations of >= 3 classes; distinct = hash(WGSL, inputs, options)")
+	ev.Assume("verif/internal/wref implements WGSL evaluation; verif/internal/spv implements SPIR-V execution; both written from the specifications, sharing no code with naga")
+	ev.Assume("textures, derivatives, subgroup and ray-query operations are outside the executors")
+	cfg.Prop(t)
 }
